@@ -148,14 +148,24 @@ func (n *zzNotifier) Stop()                  {}
 type zzStore struct {
 	snaps   map[uint64]*protocol.SignedSnapshot
 	batches []*protocol.BatchSnapshots
+	during  func()
 }
 
 func (s *zzStore) PutBatch(b *protocol.BatchSnapshots) error {
+	if s.during != nil {
+		// the POST to the snapshot store is in flight: other tasks of the agent run meanwhile
+		f := s.during
+		s.during = nil
+		f()
+	}
 	s.batches = append(s.batches, b)
 	return nil
 }
-func (s *zzStore) PutSnapshot(v uint64, sn *protocol.SignedSnapshot) error { s.snaps[v] = sn; return nil }
-func (s *zzStore) GetRange(a, b uint64) ([]protocol.SignedSnapshot, error)  { return nil, nil }
+func (s *zzStore) PutSnapshot(v uint64, sn *protocol.SignedSnapshot) error {
+	s.snaps[v] = sn
+	return nil
+}
+func (s *zzStore) GetRange(a, b uint64) ([]protocol.SignedSnapshot, error) { return nil, nil }
 func (s *zzStore) GetSnapshot(v uint64) (*protocol.SignedSnapshot, error) {
 	if sn, ok := s.snaps[v]; ok {
 		return sn, nil
@@ -163,7 +173,7 @@ func (s *zzStore) GetSnapshot(v uint64) (*protocol.SignedSnapshot, error) {
 	return nil, errors.New("snapshot not found")
 }
 func (s *zzStore) DeleteRange(a, b uint64) error { return nil }
-func (s *zzStore) Count() (uint64, error)         { return uint64(len(s.snaps)), nil }
+func (s *zzStore) Count() (uint64, error)        { return uint64(len(s.snaps)), nil }
 
 type zzCache struct{ keys [][]byte }
 
@@ -175,7 +185,10 @@ func (c *zzCache) Get(k []byte) ([]byte, error) {
 	}
 	return nil, errors.New("not found")
 }
-func (c *zzCache) Set(k, v []byte, e int) error { c.keys = append(c.keys, append([]byte{}, k...)); return nil }
+func (c *zzCache) Set(k, v []byte, e int) error {
+	c.keys = append(c.keys, append([]byte{}, k...))
+	return nil
+}
 
 type zzCtx struct {
 	context.Context
@@ -328,6 +341,7 @@ func ZZC19Publisher() {
 	f := publisherFactory{log: log.L()}
 	deliveries := 1 + rt.Choose("deliveries", rt.Param("DELIV", 3))
 	sent := map[string]bool{}
+	var batches []*protocol.BatchSnapshots
 	for k := 0; k < deliveries; k++ {
 		lo := rt.Choose(fmt.Sprintf("lo%d", k), n)
 		hi := lo + rt.Choose(fmt.Sprintf("hi%d", k), n-lo)
@@ -341,8 +355,34 @@ func ZZC19Publisher() {
 			ss = append(ss, zzGossiped(lo))
 			rt.Reach("duplicate-inside-a-batch")
 		}
-		batch := &protocol.BatchSnapshots{Snapshots: ss}
-		if !rt.NoPanic(func() { f.New(zzCtx{agent: a, batch: batch})() }, "publisher-task") {
+		batches = append(batches, &protocol.BatchSnapshots{Snapshots: ss})
+	}
+	run := func(k int) bool {
+		return rt.NoPanic(func() { f.New(zzCtx{agent: a, batch: batches[k]})() }, "publisher-task")
+	}
+	for k := 0; k < deliveries; k++ {
+		if k+1 < deliveries && rt.Choose(fmt.Sprintf("overlap%d", k), 2) == 1 {
+			// the task manager runs every task in its own goroutine: the next batch's task starts
+			// while this one's POST to the snapshot store is still in flight
+			next := k + 1
+			st.during = func() { rt.Concurrently(func() { run(next) }) }
+			if !run(k) {
+				return
+			}
+			rt.Join()
+			if st.during != nil {
+				// this task had nothing to forward, so there was no POST to overlap with: the next one runs after it
+				st.during = nil
+				if !run(next) {
+					return
+				}
+			} else {
+				rt.Reach("overlapping-publisher-tasks")
+			}
+			k++
+			continue
+		}
+		if !run(k) {
 			return
 		}
 	}
